@@ -117,6 +117,7 @@ func Main(spec *Spec) {
 	_ = flag.Bool("strict", false, "replay: (ignored, sequential runs have no schedule)")
 	dump := flag.Bool("dump-hashes", false, "record per-run digests (determinism self-test)")
 	hashOut := flag.String("hash-out", "", "file for distinct nontrivial run hashes")
+	reverse := flag.Bool("reverse", false, "with -max-runs: execute the runs in reverse order (self-test: a run must not depend on the runs before it)")
 	flag.Parse()
 
 	start := time.Now()
@@ -184,7 +185,11 @@ func Main(spec *Spec) {
 		if *maxRuns == 0 && i&7 == 0 && time.Now().After(deadline) {
 			break
 		}
-		rs := sim.Mix(*seed, spec.ID, *worker, i)
+		ri := i
+		if *reverse && *maxRuns > 0 {
+			ri = *maxRuns - 1 - i
+		}
+		rs := sim.Mix(*seed, spec.ID, *worker, ri)
 		r := sim.NewRng(rs)
 		c := spec.Gen(r, *tier)
 		c.Property, c.Engine, c.Seed = spec.ID, "C", rs>>12
@@ -207,6 +212,11 @@ func Main(spec *Spec) {
 			out.AddViolation(c)
 		} else if len(out.Samples) < 2 && nontrivial {
 			out.Samples = append(out.Samples, c)
+		}
+	}
+	if *reverse {
+		for a, b := 0, len(out.RunHashes)-1; a < b; a, b = a+1, b-1 {
+			out.RunHashes[a], out.RunHashes[b] = out.RunHashes[b], out.RunHashes[a]
 		}
 	}
 	out.Nontrivial = len(seen)
